@@ -3,6 +3,7 @@ package c06
 
 import (
 	"context"
+	"errors"
 	"fmt"
 	"os"
 	"path/filepath"
@@ -139,6 +140,13 @@ func liveVsReopened(t *rapid.T, cfg vworld.Config, alwaysCorpus bool) {
 		}
 		kv, cleanup := newKV(t, backend)
 		defer cleanup()
+		var fk *flakyKV
+		failStep := -1
+		if backend == "memory" && rapid.IntRange(0, 3).Draw(t, "commitFault") == 0 {
+			fk = &flakyKV{KeyValue: kv}
+			kv = fk
+			failStep = rapid.IntRange(0, len(ev)-1).Draw(t, "commitFaultAtStep")
+		}
 		live, err := vworld.NewEnv(w, kv, nil)
 		if err != nil {
 			t.Fatalf("C06 infrastructure: %v", err)
@@ -170,6 +178,20 @@ func liveVsReopened(t *rapid.T, cfg vworld.Config, alwaysCorpus bool) {
 				live.Store(e.I)
 				stored[e.I] = true
 				continue
+			}
+			if fk != nil && k == failStep {
+				// the key/value store refuses this blob's batch once: ReceiveBlob reports the failure, the
+				// running index and corpus must still be what the rows say, and the client's retry goes through
+				fk.failNext = true
+				derr := live.Deliver(e.I)
+				fk.failNext = false
+				live.Await()
+				if derr != nil {
+					evid.R.Label("fault/receive-failed-at-the-row-commit-then-retried")
+					if d := compareWithReopened(w, live, lc, withCorpus); d != "" {
+						fail(k, "right after ReceiveBlob(%s) failed with %v (its row commit was refused once): %s", w.Blobs[e.I].Label, derr, d)
+					}
+				}
 			}
 			if err := live.Deliver(e.I); err != nil {
 				fail(k, "ReceiveBlob(%s): %v", w.Blobs[e.I].Label, err)
@@ -270,4 +292,46 @@ func pendingPerRows(kv sorted.KeyValue) int {
 		}
 	}
 	return len(seen)
+}
+
+// flakyKV refuses one CommitBatch when told to.
+type flakyKV struct {
+	sorted.KeyValue
+	failNext bool
+}
+
+func (f *flakyKV) CommitBatch(b sorted.BatchMutation) error {
+	if f.failNext {
+		f.failNext = false
+		return errors.New("verif: injected transient failure of CommitBatch")
+	}
+	return f.KeyValue.CommitBatch(b)
+}
+
+func (f *flakyKV) Wipe() error {
+	if w, ok := f.KeyValue.(sorted.Wiper); ok {
+		return w.Wipe()
+	}
+	return nil
+}
+
+// compareWithReopened: live index/corpus vs. a fresh index/corpus over a copy of the rows.
+func compareWithReopened(w *vworld.World, live *vworld.Env, lc *index.Corpus, withCorpus bool) string {
+	kv2, err := vworld.CopyKV(live.KV)
+	if err != nil {
+		return "harness: copying rows: " + err.Error()
+	}
+	fresh, err := index.New(kv2)
+	if err != nil {
+		return "index.New over the current rows fails: " + err.Error()
+	}
+	var fc *index.Corpus
+	if withCorpus {
+		if fc, err = fresh.KeepInMemory(); err != nil {
+			return "KeepInMemory over the current rows fails: " + err.Error()
+		}
+	}
+	a := vworld.Battery(w, live.Ix, lc, vworld.BatteryOpts{})
+	b := vworld.Battery(w, fresh, fc, vworld.BatteryOpts{})
+	return vworld.DiffBattery(a, b, "running", "reopened")
 }
